@@ -10,6 +10,14 @@ class UMix(NodeMixin):
         self.parent = parent
 
 
+class ULightS(LightNodeMixin):
+    __slots__ = "v"          # a single string is a legal __slots__ declaration
+
+    def __init__(self, parent=None, v=0, lbl=0):
+        self.v = v
+        self.parent = parent
+
+
 class ULight(LightNodeMixin):
     __slots__ = ("v", "lbl")
 
@@ -19,7 +27,7 @@ class ULight(LightNodeMixin):
         self.parent = parent
 
 
-TAGS = {AnyNode: 1, Node: 2, SymlinkNode: 3, UMix: 4, ULight: 5}
+TAGS = {AnyNode: 1, Node: 2, SymlinkNode: 3, UMix: 4, ULight: 5, ULightS: 6}
 
 
 def graph(universe_entry):
@@ -42,8 +50,10 @@ def graph(universe_entry):
 
 
 def attrs_of(n):
+    if isinstance(n, ULightS):
+        return [["v", getattr(n, "v", -1)]]
     if isinstance(n, ULight):
-        return [["v", n.v], ["lbl", n.lbl]]
+        return [["v", getattr(n, "v", -1)], ["lbl", getattr(n, "lbl", -1)]]
     return sorted([k, v] for k, v in n.__dict__.items() if not k.startswith("_NodeMixin__") and k != "target")
 
 
@@ -69,6 +79,8 @@ def run_case(c):
             n = UMix(parent=p, lbl=len(nodes), v=extra)
         elif kind == "light":
             n = ULight(parent=p, v=extra, lbl=len(nodes))
+        elif kind == "lights":
+            n = ULightS(parent=p, v=extra)
         else:
             n = SymlinkNode(nodes[extra], parent=p)
         nodes.append(n)
@@ -111,8 +123,21 @@ def run_case(c):
     before = cells(nodes, index)
     leaf = order[-1]
     try:
+        oldp = leaf.parent
         leaf.parent = None
-        if not isinstance(res, ULight) and not isinstance(res, SymlinkNodeMixin):
+        if oldp is not None and any(ch is leaf for ch in oldp.children):
+            py_ok = False
+            why.append("a node detached in the copy is still listed by its former parent")
+        if leaf.parent is not None:
+            py_ok = False
+            why.append("detaching in the copy did not take effect")
+        if oldp is not None:
+            leaf.parent = oldp
+            if not any(ch is leaf for ch in oldp.children) or sum(1 for ch in oldp.children if ch is leaf) != 1:
+                py_ok = False
+                why.append("re-attaching in the copy is inconsistent")
+            leaf.parent = None
+        if not isinstance(res, (ULight, ULightS)) and not isinstance(res, SymlinkNodeMixin):
             res.extra_attr = 1
         elif isinstance(res, SymlinkNodeMixin):
             res.extra_attr = 1          # forwarded to the COPIED target
